@@ -6,6 +6,7 @@ CONSTANTS
   PVals = {0, 1, 2, 3, 4, 5, 6, 7}
   LVals = {0, 1, 2, 3, 4, 5, 6}
   ForbSets = {{}, {3}, {2, 5}}
+  HookExcs = {"badvalue", "hardware", "other"}
   Inits = {6, 13, 31}
 INVARIANT TypeOK
 PROPERTY AcceptedInside
